@@ -35,6 +35,15 @@ CHECKS = {
                 note=TB + "; hw/Npu.v footprint model trusted; intended identities are read from the compiler's own high-level "
                      "command stream by tools/wrap.py (run-time wrapper); views of one buffer with inconsistent strides are not "
                      "distinguished (C06/C10)"),
+    "C12": dict(cat="translation_validation", ref="7/C12", technique="Coq-proved arena-plan validator (check_arena_sound) run on the output model, stream footprints and summary CSV of real compilations",
+                text="Theorem check_arena_sound (Coq): acceptance implies that tensors live at a common time step never share a byte, "
+                     "every offset honours the requested alignment, the scratch tensor starts at 0 and spans every arena byte the "
+                     "command streams touch and every arena tensor the custom operators use, and the reported size covers the plan. "
+                     "Run on every output model of generated networks (CPU/NPU interleavings, several NPU subgraphs, alignments "
+                     "16..256, memory modes, allocators). Reading fixed in the check: an Ethos-U operator's inputs die and its "
+                     "outputs are born inside the operator, so reuse between an input and an output of the SAME custom operator is "
+                     "decided per byte by C03, not flagged here.",
+                note=TB + "; tools/tflsum.py and the CSV parser; tensor byte size = shape product x element size; sampled compilations"),
     "C13": dict(cat="other", ref="7/C13", technique="Coq proofs of exception-freedom for modelled arithmetic cores + crash sweep of generated models (exploration)",
                 text="Partial. Whole-compiler totality over all models is not a theorem. Proved in Coq: the arithmetic sites that "
                      "are modelled cannot raise (e.g. the scheduler's slack computation with the array dtype introspected from the "
